@@ -404,10 +404,12 @@ def r02_4(chk, so):
                 if l.kind == "iter" and l.iter is not None and "LATTICE_TYPE_TRANSLATIONS" in l.iter.key():
                     tkey = P.atom(("sub", l.iter, (l.index,))).key()
                     form = form.replace(tkey, "t")
+            # guarded by the inversion flag: the membership test is a conjunct of an `and` that also holds `lattice_type > 0`
+            # (wherever that conjunction sits in the whole condition)
             guarded = False
-            ta = e.value.as_atom()
-            if ta and ta[0] == "and":
-                guarded = any("lt 0 lattice_type" in x.key() for x in ta[1])
+            for cj in find_atoms(e.value, lambda t: t[0] == "and"):
+                if any(x.key() == P.atom(a).key() for x in cj[1]) and any("lt 0 lattice_type" in x.key() for x in cj[1]):
+                    guarded = True
             tests.add((form, guarded))
     want = {("s", False), ("s.inverted()", True), ("s + t", False), ("(s + t).inverted()", True)}
     alt = {("s", False), ("s.inverted()", True), ("t + s", False), ("(t + s).inverted()", True)}
@@ -435,7 +437,7 @@ def r02_5(chk, sg, decoded, fidx):
     raises = [e for e in ev.events if e.kind == "raise"]
     rng = any(any("international_tables_number" in c.key() and pol for c, pol in e.guards) for e in raises)
     chk.ob("R02.5", SG, "SpaceGroup.__init__", "numbers outside 1..230 are rejected", rng)
-    fn = sg.func("SpaceGroup.__init__")
+    fn = getattr(ev, "fn", None) or sg.func("SpaceGroup.__init__")      # the tree that was evaluated (new helpers expanded)
     forelse = [n for n in ast.walk(fn) if isinstance(n, ast.For) and n.orelse and any(isinstance(s, ast.Raise) for s in n.orelse)]
     chk.ob("R02.5", SG, "SpaceGroup.__init__", "an unknown choice raises (for ... else: raise)", bool(forelse))
     ops = [e for e in ev.events if e.kind == "store" and e.target.key() == "self.symmetry_operations"]
